@@ -841,24 +841,7 @@ func rulesC05(w *World, r *Report) {
 	}
 	r.floor("C05.R2 destination field selections", nB, 1)
 	if ff := w.fn("findField"); ff != nil {
-		direct, capd := false, false
-		fff := w.flow(ff)
-		for _, cs := range w.callSitesIn(ff) {
-			if cs.callee != "strings.Compare" {
-				continue
-			}
-			for _, a := range cs.call.Call.Args {
-				k := fff.term(a).Key()
-				if k == "<p:name>" {
-					direct = true
-				}
-				if c, isC := a.(*ssa.Call); isC && c.Call.StaticCallee() != nil && fnName(c.Call.StaticCallee()) == "capitalizeName" && fff.term(c.Call.Args[0]).Key() == "<p:name>" {
-					capd = true
-				}
-			}
-		}
-		r.add("C05.R2 fields are bound by looked-up name", "findField · compares the Go name with the wire name and its capitalised form", w.pos(ff.Pos()), direct && capd, fmt.Sprintf("direct comparison=%v, capitalised comparison=%v", direct, capd))
-		w.ruleCaseHelper(r, "C05.R2 fields are bound by looked-up name", "capitalizeName", 'a', 'z', -32)
+		w.ruleFindFieldPX(r, "C05.R2 fields are bound by looked-up name", ff)
 	} else {
 		r.undecided("C05.R2 fields are bound by looked-up name", "findField", "-", "anchor not found")
 	}
